@@ -15,7 +15,7 @@ func init() {
 	register(&Property{
 		ID:          "C14",
 		Engines:     []string{"cfg", "lockset"},
-		Explanation: "WebSocket ordering / whole writes, structural part: sendQueue is only touched under the connection mutex, writeFrame always runs with it held, and WriteMessage/WriteFrame release it only through their deferred unlock, so all fragments of one message are written in one critical section (O1); the send-queue drainer is spawned only on 'length is 1 after the append', its exhaustion test and reset are one critical section, its closed edge exits, and the head slot is cleared when captured (O2); CloseAndClean tests and sets closed under the mutex first and is the only caller of the close callback, after the unlock (O3); the open handler precedes the read goroutine and the return in Upgrade, and the result notification in the dialer (O4); message, data-frame and control handlers run only in jobs handed to Execute or SyncCall (O5); a frame rejected by a full queue is released and reported (O6). CloseAndClean is called only from the read loop's deferred cleanup inside the package (O10). The blocking readers honour a hand-over before the error return (O11).",
+		Explanation: "WebSocket ordering / whole writes, structural part: sendQueue is only touched under the connection mutex, writeFrame always runs with it held, and WriteMessage/WriteFrame release it only through their deferred unlock, so all fragments of one message are written in one critical section (O1); the send-queue drainer is spawned only on 'length is 1 after the append', its exhaustion test and reset are one critical section, its closed edge exits, and the head slot is cleared when captured (O2); CloseAndClean tests and sets closed under the mutex first and is the only caller of the close callback, after the unlock (O3); the open handler precedes the read goroutine and the return in Upgrade, and the result notification in the dialer (O4); message, data-frame and control handlers run only in jobs handed to Execute or SyncCall (O5); a frame rejected by a full queue is released and reported (O6). CloseAndClean is called only from the read loop's deferred cleanup inside the package (O10). The blocking readers honour a hand-over before the error return (O11). The room test measures what the fragment loop cuts (O12); a queued callback's payload is released by the job (O13).",
 		NotCovered:  "interleavings as such; the four upgrade paths as executions",
 		Run:         runC14,
 	})
